@@ -570,3 +570,34 @@ def list_shape(fnode, name):
         else:
             return None
     return parts
+
+
+def ordering_of(fnode, name):
+    """How the list bound to ``name`` is ordered: (source expr, key lambda body text or None, reverse: bool) from
+    `name = sorted(src, key=K, reverse=R)` or `name = list(src)` (or src) followed by `name.sort(key=K, reverse=R)`.
+    None if neither."""
+    from .norm import u
+
+    def kw(call):
+        key, rev = None, False
+        for k in call.keywords:
+            if k.arg == "key":
+                key = u(k.value.body) if isinstance(k.value, ast.Lambda) else u(k.value)
+                if isinstance(k.value, ast.Lambda) and k.value.args.args:
+                    key = key.replace(k.value.args.args[0].arg, "_")
+            elif k.arg == "reverse":
+                rev = isinstance(k.value, ast.Constant) and k.value.value is True
+        return key, rev
+
+    d = single_def(fnode, name)
+    if d is None:
+        return None
+    if isinstance(d, ast.Call) and isinstance(d.func, ast.Name) and d.func.id == "sorted" and d.args:
+        key, rev = kw(d)
+        return d.args[0], key, rev
+    src = d.args[0] if isinstance(d, ast.Call) and isinstance(d.func, ast.Name) and d.func.id == "list" and len(d.args) == 1 else d
+    sorts = [c for c in walk_function(fnode) if isinstance(c, ast.Call) and isinstance(c.func, ast.Attribute) and c.func.attr == "sort" and isinstance(c.func.value, ast.Name) and c.func.value.id == name]
+    if len(sorts) != 1:
+        return None
+    key, rev = kw(sorts[0])
+    return src, key, rev
